@@ -275,11 +275,15 @@ theorem dispatch_ver (c : Core) (hn : Str) (attrsD : List (Str × Str)) (d : Cor
       split at h
       · injection h with h; injection h with ha _; rw [← ha]; exact ⟨rfl, rfl⟩
       · split at h
-        · cases h
-        · simp only at h
-          split at h
-          · injection h with h; injection h with ha _; rw [← ha]; exact ⟨rfl, rfl⟩
-          · injection h with h; injection h with ha _; rw [← ha]; exact setContext_ver _ _ _
+        · rw [(startContent_ok _ _ _ _ _ _ _ h).1]; exact ⟨rfl, rfl⟩
+        · split at h
+          · rw [(startContent_ok _ _ _ _ _ _ _ h).1]; exact ⟨rfl, rfl⟩
+          · split at h
+            · cases h
+            · simp only at h
+              split at h
+              · injection h with h; injection h with ha _; rw [← ha]; exact ⟨rfl, rfl⟩
+              · injection h with h; injection h with ha _; rw [← ha]; exact setContext_ver _ _ _
 
 def declFold (attrs : List (Str × Str)) (v : VS) : VS :=
   attrs.foldl (fun st kv =>
@@ -313,6 +317,15 @@ theorem startPre_proj (o : Ops) (c : Core) (tag : Str) (attrs : List (Str × Str
     · rw [hf]; rfl
   · rw [hf]; rfl
 
+theorem startContent_isOk_eq (c : Core) (k : Str) (a : List (Str × Str)) (ty : Str) (e : Bool) :
+    (startContent c k a ty e).isOk = !(some (mapContentType ((sget a (S "type")).getD ty)) == some XHTML) := by
+  simp only [startContent, pushContent, Option.map_some]
+  by_cases h : (some (mapContentType ((sget a (S "type")).getD ty)) == some XHTML) = true <;> simp [h, Except.isOk, Except.toBool]
+
+theorem startContent_isOk (c c' : Core) (k : Str) (a : List (Str × Str)) (ty : Str) (e e' : Bool) :
+    (startContent c k a ty e).isOk = (startContent c' k a ty e').isOk := by
+  rw [startContent_isOk_eq, startContent_isOk_eq]
+
 /-- errors of the dispatch depend on the handler name and the attributes only -/
 theorem dispatch_isOk (c c' : Core) (hn : Str) (attrsD : List (Str × Str)) :
     (dispatchCore c hn attrsD).isOk = (dispatchCore c' hn attrsD).isOk := by
@@ -328,33 +341,76 @@ theorem dispatch_isOk (c c' : Core) (hn : Str) (attrsD : List (Str × Str)) :
     · split
       · rfl
       · split
-        · rfl
-        · simp only
-          split <;> rfl
+        · exact startContent_isOk _ _ _ _ _ _ _
+        · split
+          · exact startContent_isOk _ _ _ _ _ _ _
+          · split
+            · rfl
+            · simp only
+              split <;> rfl
 
 def hnV (v : VS) (tag : Str) : Str := handlerName { nsMap := v.nsMap } tag
 
 theorem handlerName_proj (c : Core) (tag : Str) : handlerName c tag = hnV (proj c) tag := rfl
 
-/-- one event of the version sub-machine; `none` = outside stage 1 -/
-def vStep (loose : Bool) (v : VS) : MEv → Option VS
+/-- the sub-machine's state: version, prefix map, and — while a text construct is open (`incontent`) — the name of the element on
+top of the stack (stage 2: inside a text construct only its own end tag is in the model's domain) -/
+structure VX where
+  v : VS
+  openC : Option (Option Str)
+deriving DecidableEq
+
+def projX (s : MSt) : VX := ⟨proj s.c, if s.c.incontent then some (s.stack.head?.map (·.name)) else none⟩
+
+/-- which dispatches open a text construct, and the element they push -/
+def dispOpen (hn : Str) : Option Str :=
+  if hn == S "rss" then none
+  else if hn == S "channel" || hn == S "feed" || hn == S "item" || hn == S "entry" then none
+  else if (dateKey hn).isSome then none
+  else if isTitle hn then some (S "title") else (contentKey hn).map (·.1)
+
+/-- one event of the version sub-machine; `none` = outside the model's domain -/
+def vStep (loose : Bool) (x : VX) : MEv → Option VX
   | .start tag attrs =>
-    let v1 := declFold (attrs.map (normAttr loose)) v
+    if x.openC.isSome then none else
+    let v1 := declFold (attrs.map (normAttr loose)) x.v
     let a := dictOf (attrs.map (normAttr loose))
     let h := hnV v1 tag
-    if (dispatchCore { version := v1.version, nsMap := v1.nsMap } h a).isOk then some ⟨dispVer v1.version h a, v1.nsMap⟩ else none
+    if (dispatchCore { version := v1.version, nsMap := v1.nsMap } h a).isOk then some ⟨⟨dispVer v1.version h a, v1.nsMap⟩, (dispOpen h).map some⟩ else none
   | .stop tag =>
-    let h := hnV v tag
-    if h == S "channel" || h == S "feed" || h == S "item" || h == S "entry" || (dateKey h).isSome || !hasEnd h then some v else none
-  | .data _ => some v
-  | .ns p u => some (trackV v p u)
+    let h := hnV x.v tag
+    match x.openC with
+    | some top =>
+      (match contentEndKey h, top with
+        | some k, some nm => if nm != k then none else some ⟨x.v, none⟩
+        | _, _ => none)
+    | none =>
+      if (contentEndKey h).isSome then none
+      else if h == S "channel" || h == S "feed" || h == S "item" || h == S "entry" || (dateKey h).isSome || !hasEnd h then some x else none
+  | .data _ => some x
+  | .ns p u => some ⟨trackV x.v p u, x.openC⟩
 
-def vRun (loose : Bool) : VS → List MEv → Option VS
+def vRun (loose : Bool) : VX → List MEv → Option VX
   | v, [] => some v
   | v, e :: rest => match vStep loose v e with | some v' => vRun loose v' rest | none => none
 
-theorem pop_proj (o : Ops) (s : MSt) (el : Str) : proj (pop o s el).c = proj s.c := by
+theorem pop_proj (o : Ops) (s : MSt) (el : Str) : proj (pop o s el).c = proj s.c ∧ (pop o s el).c.incontent = s.c.incontent := by
   unfold pop
+  split
+  · exact ⟨rfl, rfl⟩
+  · split
+    · exact ⟨rfl, rfl⟩
+    · simp only
+      split
+      · exact ⟨rfl, rfl⟩
+      · split
+        · exact ⟨rfl, rfl⟩
+        · split
+          · exact ⟨rfl, rfl⟩
+          · split <;> exact ⟨rfl, rfl⟩
+
+theorem popFull_proj (o : Ops) (s : MSt) (el : Str) : proj (popFull o s el).2.c = proj s.c := by
+  unfold popFull
   split
   · rfl
   · split
@@ -366,13 +422,109 @@ theorem pop_proj (o : Ops) (s : MSt) (el : Str) : proj (pop o s el).c = proj s.c
         · rfl
         · split
           · rfl
-          · split <;> rfl
+          · split
+            · rfl
+            · split <;> rfl
+
+theorem track_incontent (c : Core) (p : Option Str) (u : Str) : (trackNamespace c p u).incontent = c.incontent := by
+  unfold trackNamespace; simp only; split <;> rfl
+
+theorem foldl_track_incontent (attrs : List (Str × Str)) : ∀ c : Core,
+    (attrs.foldl (fun st kv =>
+      if (S "xmlns:").isPrefixOf kv.1 then trackNamespace st (some (kv.1.drop 6)) kv.2
+      else if kv.1 == S "xmlns" then trackNamespace st none kv.2 else st) c).incontent = c.incontent := by
+  induction attrs with
+  | nil => intro c; rfl
+  | cons a rest ih =>
+    intro c
+    simp only [List.foldl_cons]
+    split
+    · rw [ih, track_incontent]
+    · split
+      · rw [ih, track_incontent]
+      · rw [ih]
+
+theorem startPre_incontent (o : Ops) (c : Core) (tag : Str) (attrs : List (Str × Str)) :
+    (startPre o c tag attrs).1.incontent = c.incontent := by
+  unfold startPre
+  simp only
+  have hf := foldl_track_incontent (attrs.map (normAttr o.loose))
+  split
+  · split <;> rw [hf]
+  · rw [hf]
+
+theorem setContext_incontent (c : Core) (k : Str) (v : V) : (setContext c k v).incontent = c.incontent := by
+  unfold setContext; split <;> rfl
+
+/-- what a successful dispatch does to `incontent`, and which element it pushes when it opens a text construct -/
+theorem dispatch_open (c : Core) (hn : Str) (attrsD : List (Str × Str)) (d : Core) (e : Option Elem)
+    (h : dispatchCore c hn attrsD = .ok (d, e)) (hc : c.incontent = false) :
+    (if d.incontent then some (e.map (·.name)) else none) = (dispOpen hn).map some := by
+  unfold dispatchCore at h
+  unfold dispOpen
+  split at h
+  · rename_i h1
+    injection h with h
+    simp only [h1, ↓reduceIte]
+    split at h <;> (injection h with ha _; rw [← ha]; simp [hc])
+  · rename_i h1
+    simp only [h1, Bool.false_eq_true, ↓reduceIte]
+    split at h
+    · rename_i h2
+      simp only [h2, ↓reduceIte]
+      split at h
+      · cases h
+      · split at h
+        · injection h with h; injection h with ha _; rw [← ha]; simp [hc]
+        · split at h
+          · injection h with h
+            split at h <;> (injection h with ha _; rw [← ha]; simp [hc])
+          · simp only at h
+            injection h with h; injection h with ha _
+            rw [← ha]
+            split
+            · split
+              · simp [hc]
+              · simp [setContext_incontent, hc]
+            · simp [hc]
+    · rename_i h2
+      simp only [h2, Bool.false_eq_true, ↓reduceIte]
+      split at h
+      · rename_i h3
+        injection h with h; injection h with ha _; rw [← ha]; simp [hc, h3]
+      · rename_i h3
+        simp only [h3, Bool.false_eq_true, ↓reduceIte]
+        split at h
+        · rename_i h4
+          obtain ⟨hd, he⟩ := startContent_ok _ _ _ _ _ _ _ h
+          rw [hd, he]
+          simp [h4, pushContent]
+        · rename_i h4
+          simp only [h4, Bool.false_eq_true, ↓reduceIte]
+          split at h
+          · rename_i k ty hk
+            obtain ⟨hd, he⟩ := startContent_ok _ _ _ _ _ _ _ h
+            rw [hd, he]
+            simp [hk, pushContent]
+          · rename_i hk
+            split at h
+            · cases h
+            · simp only at h
+              split at h
+              · injection h with h; injection h with ha _; rw [← ha]; simp [hc, hk]
+              · injection h with h; injection h with ha _; rw [← ha]; simp [setContext_incontent, hc, hk]
 
 theorem step_proj (o : Ops) (s : MSt) (e : MEv) :
-    (match mstep o s e with | .ok s' => some (proj s'.c) | .unmodelled _ => none) = vStep o.loose (proj s.c) e := by
+    (match mstep o s e with | .ok s' => some (projX s') | .unmodelled _ => none) = vStep o.loose (projX s) e := by
   cases e with
   | start tag attrs =>
     simp only [mstep, startTag, vStep]
+    by_cases hc : s.c.incontent = true
+    · simp [projX, hc]
+    have hc' : s.c.incontent = false := by simpa using hc
+    have hx : (projX s).openC = none := by simp [projX, hc']
+    have hv : (projX s).v = proj s.c := rfl
+    simp only [hc', Bool.false_eq_true, ↓reduceIte, hx, Option.isSome_none, startTag0, hv]
     have hp := startPre_proj o s.c tag attrs
     rw [hp.2, handlerName_proj, hp.1]
     have hok := dispatch_isOk (startPre o s.c tag attrs).1
@@ -387,41 +539,90 @@ theorem step_proj (o : Ops) (s : MSt) (e : MEv) :
       obtain ⟨d, pe⟩ := r
       rw [hd] at hok
       have hv := dispatch_ver _ _ _ d pe hd
+      have ho := dispatch_open _ _ _ d pe hd (by rw [startPre_incontent]; exact hc')
       have h1 : (startPre o s.c tag attrs).1.version = (declFold (attrs.map (normAttr o.loose)) (proj s.c)).version := congrArg VS.version hp.1
       have h2 : (startPre o s.c tag attrs).1.nsMap = (declFold (attrs.map (normAttr o.loose)) (proj s.c)).nsMap := congrArg VS.nsMap hp.1
       rw [← hok]
       cases pe with
-      | none => simp only [applyDispatch, Except.isOk, Except.toBool, ↓reduceIte, proj, hv.1, hv.2, h1, h2]
-      | some el => simp only [applyDispatch, Except.isOk, Except.toBool, ↓reduceIte, proj, hv.1, hv.2, h1, h2]
+      | none =>
+        simp only [applyDispatch, Except.isOk, Except.toBool, ↓reduceIte, projX, proj, hv.1, hv.2, h1, h2, Option.some.injEq, VX.mk.injEq, true_and]
+        simp only [proj] at ho
+        rw [← ho]
+        cases hdi : d.incontent with
+        | false => simp
+        | true =>
+          rw [hdi] at ho
+          simp only [↓reduceIte, Option.map_none] at ho
+          cases hdo : dispOpen (hnV (declFold (List.map (normAttr o.loose) attrs) { version := s.c.version, nsMap := s.c.nsMap }) tag) with
+          | none => rw [hdo] at ho; simp at ho
+          | some k => rw [hdo] at ho; simp at ho
+      | some el =>
+        simp only [applyDispatch, Except.isOk, Except.toBool, ↓reduceIte, projX, proj, hv.1, hv.2, h1, h2, Option.some.injEq, VX.mk.injEq, true_and, List.head?_cons]
+        simp only [proj] at ho
+        rw [← ho]
   | stop tag =>
-    simp only [mstep, endTag, vStep, handlerName_proj]
-    have e1 : ∀ c : Core, proj (endFinish o c) = proj c := fun _ => rfl
+    simp only [mstep, endTag, vStep]
+    have hvv : (projX s).v = proj s.c := rfl
+    by_cases hc : s.c.incontent = true
+    · -- the end tag of the open text construct
+      have hx : (projX s).openC = some (s.stack.head?.map (·.name)) := by simp [projX, hc]
+      simp only [hc, ↓reduceIte, hx, hvv, handlerName_proj]
+      unfold endContent
+      cases hk : contentEndKey (hnV (proj s.c) tag) with
+      | none => simp
+      | some k =>
+        cases hs : s.stack with
+        | nil => simp
+        | cons top rest =>
+          simp only [List.head?_cons, Option.map_some]
+          by_cases hne : (top.name != k) = true
+          · simp [hne]
+          · simp only [hne, Bool.false_eq_true, ↓reduceIte, projX, Option.some.injEq, VX.mk.injEq]
+            have ha := afterTitle_frame k (popContent o s k)
+            have hpf := popFull_proj o s k
+            refine ⟨?_, ?_⟩
+            · simp only [proj, endFinish, ha.2.2.2.1, ha.2.2.2.2.1]
+              simp only [proj] at hpf
+              simpa [popContent] using hpf
+            · simp only [endFinish, ha.2.2.2.2.2.2.2.2.2.1]
+              simp [popContent]
+    have hc' : s.c.incontent = false := by simpa using hc
+    have hx : (projX s).openC = none := by simp [projX, hc']
+    simp only [hc', Bool.false_eq_true, ↓reduceIte, hx, hvv, handlerName_proj]
+    by_cases hk : (contentEndKey (hnV (proj s.c) tag)).isSome = true
+    · simp [hk]
+    simp only [hk, Bool.false_eq_true, ↓reduceIte, endTag0, handlerName_proj]
+    have e1 : ∀ (c : Core) (st : List Elem), projX ⟨endFinish o c, st⟩ = ⟨proj c, if c.incontent then some (st.head?.map (·.name)) else none⟩ := fun _ _ => rfl
     have e2 : ∀ (c : Core) (b : Bool), proj { c with infeed := b } = proj c := fun _ _ => rfl
     have e3 : ∀ (c : Core) (b : Bool), proj { c with inentry := b } = proj c := fun _ _ => rfl
     have e4 : ∀ (c : Core) (k : Str) (v : V), proj (setContext c k v) = proj c := by
       intro c k v; have := setContext_ver c k v; simp only [proj, this.1, this.2]
+    have hpx : projX s = ⟨proj s.c, none⟩ := by simp [projX, hc']
     cases hdk : dateKey (hnV (proj s.c) tag) with
     | some kp =>
       by_cases hA : (hnV (proj s.c) tag == S "channel") = true <;> by_cases hB : (hnV (proj s.c) tag == S "feed") = true <;>
         by_cases hC : (hnV (proj s.c) tag == S "item") = true <;> by_cases hD : (hnV (proj s.c) tag == S "entry") = true <;>
-        simp [hA, hB, hC, hD, e1, e2, e3, e4, pop_proj]
+        (simp [hA, hB, hC, hD, e1, e2, e3, e4, hpx, hc', (pop_proj o s _).1, (pop_proj o s _).2, setContext_incontent]) <;> first | rfl | exact (pop_proj o s _).1
     | none =>
       by_cases hA : (hnV (proj s.c) tag == S "channel") = true <;> by_cases hB : (hnV (proj s.c) tag == S "feed") = true <;>
         by_cases hC : (hnV (proj s.c) tag == S "item") = true <;> by_cases hD : (hnV (proj s.c) tag == S "entry") = true <;>
-        by_cases hE : hasEnd (hnV (proj s.c) tag) = true <;> simp [hA, hB, hC, hD, hE, e1, e2, e3, pop_proj]
+        by_cases hE : hasEnd (hnV (proj s.c) tag) = true <;> (simp [hA, hB, hC, hD, hE, e1, e2, e3, hpx, hc', (pop_proj o s _).1, (pop_proj o s _).2]) <;> first | rfl | exact (pop_proj o s _).1
   | data t =>
     simp only [mstep, vStep]
     unfold handleData
-    split <;> rfl
+    split
+    · rfl
+    · rename_i top rest hs
+      simp [projX, hs]
   | ns p u =>
-    simp only [mstep, vStep]
+    simp only [mstep, vStep, projX, track_incontent]
     rw [← track_proj]
 
 /-- **The version sub-machine**: for every `Ops`, state and event sequence, the version (and the
 prefix map) the handler machine ends with is what `vRun` computes from the version and prefix map it
-started with — nothing else in the state, and nothing in `Ops` but the back end flag, has any influence. -/
+started with (and the open text construct, if any) — nothing else in the state, and nothing in `Ops` but the back end flag, has any influence. -/
 theorem version_submachine (o : Ops) (evs : List MEv) : ∀ s : MSt,
-    (match mrun o s evs with | .ok s' => some (proj s'.c) | .unmodelled _ => none) = vRun o.loose (proj s.c) evs := by
+    (match mrun o s evs with | .ok s' => some (projX s') | .unmodelled _ => none) = vRun o.loose (projX s) evs := by
   induction evs with
   | nil => intro s; rfl
   | cons e rest ih =>
@@ -434,9 +635,9 @@ theorem version_submachine (o : Ops) (evs : List MEv) : ∀ s : MSt,
 
 def verOf (o : Outcome) : Option Str := match o with | .ok s => some s.c.version | .unmodelled _ => none
 
-theorem verOf_eq (o : Ops) (evs : List MEv) : verOf (mrun o {} evs) = (vRun o.loose ⟨[], []⟩ evs).map (·.version) := by
+theorem verOf_eq (o : Ops) (evs : List MEv) : verOf (mrun o {} evs) = (vRun o.loose ⟨⟨[], []⟩, none⟩ evs).map (·.v.version) := by
   have := version_submachine o evs {}
-  have hp : proj ({} : MSt).c = ⟨[], []⟩ := rfl
+  have hp : projX ({} : MSt) = ⟨⟨[], []⟩, none⟩ := rfl
   rw [hp] at this
   unfold verOf
   cases hm : mrun o {} evs with
@@ -454,7 +655,7 @@ def evRss10Strict : List MEv :=
 def evRss10Loose : List MEv :=
   [.start (S "rdf:rdf") [(S "xmlns:rdf", S "http://www.w3.org/1999/02/22-rdf-syntax-ns#"), (S "xmlns", S "http://purl.org/rss/1.0/")]]
 
-def vVer (loose : Bool) (evs : List MEv) : Option Str := (vRun loose ⟨[], []⟩ evs).map (·.version)
+def vVer (loose : Bool) (evs : List MEv) : Option Str := (vRun loose ⟨⟨[], []⟩, none⟩ evs).map (·.v.version)
 
 theorem vv_rss091 : ∀ b, vVer b (evRss "0.91") = some (S "rss091u") := by decide +kernel
 theorem vv_rss092 : ∀ b, vVer b (evRss "0.92") = some (S "rss092") := by decide +kernel
@@ -581,8 +782,9 @@ theorem dateKey_plain (h : Str) (k pk : Str) (hk : dateKey h = some (k, pk)) :
     simpa using hall
 
 /-- start tag of a simple date element without attributes: push `K`, nothing else that matters changes -/
-theorem date_start (o : Ops) (s : MSt) (tag k pk : Str) (hk : dateKey (handlerName s.c tag) = some (k, pk)) :
-    ∃ c1, mstep o s (.start tag []) = .ok ⟨c1, ⟨k, true, []⟩ :: s.stack⟩ ∧ c1.entries = s.c.entries ∧ c1.inentry = s.c.inentry ∧ c1.nsMap = s.c.nsMap := by
+theorem date_start (o : Ops) (s : MSt) (tag k pk : Str) (hk : dateKey (handlerName s.c tag) = some (k, pk)) (hnc : s.c.incontent = false) :
+    ∃ c1, mstep o s (.start tag []) = .ok ⟨c1, ⟨k, true, []⟩ :: s.stack⟩ ∧ c1.entries = s.c.entries ∧ c1.inentry = s.c.inentry ∧ c1.nsMap = s.c.nsMap ∧
+      c1.incontent = false := by
   have hpre : (startPre o s.c tag []).1.entries = s.c.entries ∧ (startPre o s.c tag []).1.inentry = s.c.inentry ∧
       (startPre o s.c tag []).1.nsMap = s.c.nsMap ∧ (startPre o s.c tag []).2 = [] := by
     unfold startPre
@@ -593,8 +795,8 @@ theorem date_start (o : Ops) (s : MSt) (tag k pk : Str) (hk : dateKey (handlerNa
   have hh : handlerName (startPre o s.c tag []).1 tag = handlerName s.c tag := by
     unfold handlerName; rw [hpre.2.2.1]
   obtain ⟨n1, n2, n3, n4, n5⟩ := dateKey_not_structural _ _ hk
-  refine ⟨(startPre o s.c tag []).1, ?_, hpre.1, hpre.2.1, hpre.2.2.1⟩
-  simp only [mstep, startTag, hh, hpre.2.2.2]
+  refine ⟨(startPre o s.c tag []).1, ?_, hpre.1, hpre.2.1, hpre.2.2.1, by rw [startPre_incontent]; exact hnc⟩
+  simp only [mstep, startTag, hnc, Bool.false_eq_true, ↓reduceIte, startTag0, hh, hpre.2.2.2]
   unfold dispatchCore
   simp only [n1, n2, n3, n4, n5, Bool.false_eq_true, ↓reduceIte, Bool.or_self, hk, Option.isSome_some, Option.map_some, applyDispatch]
 
@@ -606,7 +808,7 @@ def parsedOf (o : Ops) (v : Str) : Option (List Int) := if v.isEmpty then none e
 the current entry is what `_parse_date` answers for the (stripped, repaired) joined text -/
 theorem date_stop (o : Ops) (s : MSt) (tag k pk : Str) (ps : List Str) (rest : List Elem) (e0 : Entry) (es : List Entry)
     (hk : dateKey (handlerName s.c tag) = some (k, pk)) (hst : s.stack = ⟨k, true, ps⟩ :: rest)
-    (hin : s.c.inentry = true) (hen : s.c.entries = e0 :: es) :
+    (hin : s.c.inentry = true) (hen : s.c.entries = e0 :: es) (hnc : s.c.incontent = false) :
     ∃ s', mstep o s (.stop tag) = .ok s' ∧ s'.stack = rest ∧ s'.c.inentry = true ∧
       ∃ e', s'.c.entries = e' :: es ∧ dget e'.d (canonKey pk) = some (.t (parsedOf o (o.fix (stripS ps.flatten)))) := by
   obtain ⟨n1, n2, n3, n4, n5⟩ := dateKey_not_structural _ _ hk
@@ -619,7 +821,7 @@ theorem date_stop (o : Ops) (s : MSt) (tag k pk : Str) (ps : List Str) (rest : L
     unfold pop
     simp only [hst, bne_self_eq_false, Bool.false_eq_true, ↓reduceIte, Bool.not_true, hu, Bool.false_and, hp, hin, hen, updHead]
   refine ⟨⟨endFinish o (setContext (pop o s k).c pk (.t (parsedOf o (o.fix (stripS ps.flatten))))), (pop o s k).stack⟩, ?_, ?_, ?_, ?_⟩
-  · simp only [mstep, endTag, n2, n3, n4, n5, Bool.or_self, Bool.false_eq_true, ↓reduceIte, hk, hv, parsedOf]
+  · simp only [mstep, endTag, hnc, dateKey_not_content _ _ hk, Option.isSome_none, endTag0, n2, n3, n4, n5, Bool.or_self, Bool.false_eq_true, ↓reduceIte, hk, hv, parsedOf]
   · simp only [hpop]
   · simp only [hpop, endFinish, setContext, hin, ↓reduceIte]
   · refine ⟨{ (writeEntry k (o.fix (stripS ps.flatten)) s.c.depth e0) with d := fset (writeEntry k (o.fix (stripS ps.flatten)) s.c.depth e0).d pk (.t (parsedOf o (o.fix (stripS ps.flatten)))) }, ?_, ?_⟩
@@ -636,17 +838,18 @@ the tokenizer chunks it: C10), either back end: after `<X>text</X>` inside an en
 `_parse_date` on the renderings of an instant this is the XML half of "every instant comes back as the
 correct UTC tuple". -/
 theorem date_element_parsed (o : Ops) (s : MSt) (tag k pk t : Str) (e0 : Entry) (es : List Entry)
-    (hk : dateKey (handlerName s.c tag) = some (k, pk)) (hin : s.c.inentry = true) (hen : s.c.entries = e0 :: es) :
+    (hk : dateKey (handlerName s.c tag) = some (k, pk)) (hin : s.c.inentry = true) (hen : s.c.entries = e0 :: es)
+    (hnc : s.c.incontent = false) :
     ∃ s' e', mrun o s [.start tag [], .data t, .stop tag] = .ok s' ∧ s'.stack = s.stack ∧ s'.c.entries = e' :: es ∧
       dget e'.d (canonKey pk) = some (.t (parsedOf o (o.fix (stripS t)))) := by
-  obtain ⟨c1, h1, he1, hi1, hn1⟩ := date_start o s tag k pk hk
+  obtain ⟨c1, h1, he1, hi1, hn1, hc1⟩ := date_start o s tag k pk hk hnc
   have hk1 : dateKey (handlerName c1 tag) = some (k, pk) := by
     have : handlerName c1 tag = handlerName s.c tag := by unfold handlerName; rw [hn1]
     rw [this]; exact hk
   have h2 : mstep o ⟨c1, ⟨k, true, []⟩ :: s.stack⟩ (.data t) = .ok ⟨c1, ⟨k, true, [t]⟩ :: s.stack⟩ := by
     simp [mstep, handleData]
   obtain ⟨s3, h3, hs3, _, e', he', hd'⟩ := date_stop o ⟨c1, ⟨k, true, [t]⟩ :: s.stack⟩ tag k pk [t] s.stack e0 es hk1 rfl
-    (by simpa using hi1.trans hin) (by simpa using he1.trans hen)
+    (by simpa using hi1.trans hin) (by simpa using he1.trans hen) hc1
   refine ⟨s3, e', ?_, hs3, he', ?_⟩
   · simp only [mrun, h1, h2, h3]
   · simpa using hd'
